@@ -836,6 +836,16 @@ fn run_packed(cfg: &Config, s: &mut Session, rng: &mut Rng) {
     for d in &fixed_points {
         points_case(s, d);
     }
+    // maximal counts with more run data than any count can consume: the u16 accumulator `n_seen` of
+    // `total_len` and the `seen` counter of the iterator stay below the masked count (32767)
+    for (hdr, control, run_bytes) in [([0xFFu8, 0xFF], 0x7Fu8, 128usize), ([0xFF, 0xFF], 0xFF, 256), ([0xFF, 0xFE], 0x7F, 128)] {
+        let mut d = hdr.to_vec();
+        for i in 0..600usize {
+            d.push(control);
+            d.extend((0..run_bytes).map(|j| ((i + j) % 2) as u8));
+        }
+        points_case(s, &d);
+    }
     let fixed_deltas: Vec<Vec<u8>> = vec![
         vec![],
         vec![0x81],
